@@ -1,5 +1,5 @@
 //@unit relpos
-//@props C09 C11
+//@props C09 C11 C10
 // U-relpos: direction-relative placement (`|h |H |v |V`), the order of the positioning pipeline
 // (an element's own size is FINAL before it is placed beside another one), shorthand expansion
 // (wh/rxy/dwh, xy/cxy/xy1/xy2/dxy, xy-loc anchor table) and dw/dh application.
@@ -176,6 +176,22 @@ impl ScalarSpec {
 //@ - value@ == "ry"@ ==> r == Ok::<ScalarSpec, SvgdxError>(ScalarSpec::Ry)     @@C09.scalar.names
 //@end
 }
+/// split_relspec: None = error (unknown id, ...); Some((element?, rest))
+pub uninterp spec fn relspec_of(ctx: Ctx, value: Seq<char>) -> Option<(Option<SvgElement>, Seq<char>)>;
+/// the context's bounding box of an element: None = error, Some(None) = no box (yet)
+pub uninterp spec fn ctx_bbox(ctx: Ctx, e: SvgElement) -> Option<Option<BoundingBox>>;
+#[verifier::external_body]
+pub fn split_relspec<'a>(value: &'a str, ctx: &'a Ctx) -> (r: Result<(Option<&'a SvgElement>, &'a str)>)
+    ensures (match relspec_of(*ctx, value@) {
+        Some(p) => r is Ok && (r->Ok_0.0 is Some) == (p.0 is Some) && (p.0 is Some ==> *(r->Ok_0.0->Some_0) == p.0->Some_0) && r->Ok_0.1@ == p.1,
+        None => r is Err })
+{ unimplemented!() }
+impl Ctx {
+    #[verifier::external_body]
+    pub fn get_element_bbox(&self, el: &SvgElement) -> (r: Result<Option<BoundingBox>>)
+        ensures (match ctx_bbox(*self, *el) { Some(b) => r == Ok::<Option<BoundingBox>, SvgdxError>(b), None => r is Err })
+    { unimplemented!() }
+}
 impl DirSpec {
 //@item src/position.rs :: impl DirSpec :: fn to_locspec
 //@ ensures
@@ -232,6 +248,8 @@ impl SvgElement {
     { unimplemented!() }
 
     #[verifier::external_body]
+    pub fn to_string(&self) -> String { unimplemented!() }
+    #[verifier::external_body]
     pub fn extract_dx_dy(&self, input: &str) -> (r: Result<(R32, R32)>)
         ensures (match dxdy_parse(input@) { Some(p) => r is Ok && val(r->Ok_0.0) == p.0 && val(r->Ok_0.1) == p.1, None => r is Err })
     { unimplemented!() }
@@ -258,6 +276,33 @@ impl SvgElement {
 //@           let p = loc_point(*bbox, loc->Some_0); let d = dxdy_parse(split_rest(remain@))->Some_0;
 //@           r->Ok_0@ == fstr_spec(if is_x_scalar(attr_ss) { p.0 + d.0 } else if is_y_scalar(attr_ss) { p.1 + d.1 } else { scalar_of(*bbox, attr_ss) }) }) })     @@C09.loc.value
 //@ - strip_sep(split_head(remain@), '~') is None && strip_sep(split_head(remain@), '@') is None && split_head(remain@).len() > 0 ==> r is Err     @@C09.loc.junk_rejected
+//@end
+
+    // ---- element-relative attribute values: the reference must be resolvable NOW or the element must fail (and be retried)
+//@item src/element.rs :: impl SvgElement :: fn eval_pos_attr
+//@ replace[R-opaque-type] <<<ctx: &impl ElementMap>>> => <<<ctx: &Ctx>>>
+//@ replace[R-fromstr] <<<ScalarSpec::from_str(name)>>> => <<<parse_scalarspec(name)>>>
+//@ ensures
+//@ - scalar_parse(name@) is Some && relspec_of(*ctx, value@) is Some && relspec_of(*ctx, value@)->Some_0.0 is Some
+//@       && !(ctx_bbox(*ctx, relspec_of(*ctx, value@)->Some_0.0->Some_0) is Some && ctx_bbox(*ctx, relspec_of(*ctx, value@)->Some_0.0->Some_0)->Some_0 is Some) ==> r is Err     @@C10.ref.unavailable_is_error.pos
+//@ - scalar_parse(name@) is Some && relspec_of(*ctx, value@) is None ==> r is Err     @@C10.ref.unknown_is_error.pos
+//@ - (scalar_parse(name@) is None || (relspec_of(*ctx, value@) is Some && relspec_of(*ctx, value@)->Some_0.0 is None)) ==> r is Ok && r->Ok_0@ == value@     @@C09.attr.literal_kept
+//@end
+//@item src/element.rs :: impl SvgElement :: fn eval_size_attr
+//@ replace[R-opaque-type] <<<ctx: &impl ElementMap>>> => <<<ctx: &Ctx>>>
+//@ replace[R-fromstr] <<<ScalarSpec::from_str(name)>>> => <<<parse_scalarspec(name)>>>
+//@ replace[R-splitonce] <<<remain.split_once(' ').unwrap_or((remain, ""))>>> => <<<split_once_blank(remain)>>>
+//@ replace[R-strip] <<<ss_str.strip_prefix(SCALARSPEC_SEP)>>> => <<<strip_prefix_char(ss_str, SCALARSPEC_SEP)>>>
+//@ replace[R-parse] <<<v = bbox.scalarspec(ss.parse()?);>>> => <<<v = bbox.scalarspec(parse_scalarspec(ss)?);>>>
+//@ ensures
+//@ - scalar_parse(name@) is Some && relspec_of(*ctx, value@) is Some && relspec_of(*ctx, value@)->Some_0.0 is Some
+//@       && !(ctx_bbox(*ctx, relspec_of(*ctx, value@)->Some_0.0->Some_0) is Some && ctx_bbox(*ctx, relspec_of(*ctx, value@)->Some_0.0->Some_0)->Some_0 is Some) ==> r is Err     @@C10.ref.unavailable_is_error.size
+//@ - scalar_parse(name@) is Some && relspec_of(*ctx, value@) is Some && relspec_of(*ctx, value@)->Some_0.0 is Some
+//@       && ctx_bbox(*ctx, relspec_of(*ctx, value@)->Some_0.0->Some_0) is Some && ctx_bbox(*ctx, relspec_of(*ctx, value@)->Some_0.0->Some_0)->Some_0 is Some
+//@       && strip_sep(split_head(relspec_of(*ctx, value@)->Some_0.1), '~') is None && r is Ok ==> ({
+//@           let b = ctx_bbox(*ctx, relspec_of(*ctx, value@)->Some_0.0->Some_0)->Some_0->Some_0; let rest = split_rest(relspec_of(*ctx, value@)->Some_0.1);
+//@           let v0 = scalar_of(b, scalar_parse(name@)->Some_0);
+//@           r->Ok_0@ == fstr_spec(match length_parse(rest) { Some(l) => adjust_len(l, v0), None => v0 }) })     @@C09.size.relative_value
 //@end
 
 //@item src/element.rs :: impl SvgElement :: fn place_at
